@@ -378,7 +378,7 @@ func genVal(r *Rng, t *Ty, depth int) *Sx {
 		}
 		xs := []*Sx{A("bytes")}
 		for i, n := 0, r.Intn(4); i < n; i++ {
-			xs = append(xs, I(Pick(r, 0, 1, 97, 255)))
+			xs = append(xs, I(Pick(r, 0, 1, 65, 97, 255)))
 		}
 		return L(xs...)
 	case "time":
@@ -519,7 +519,7 @@ func tweak(r *Rng, t *Ty, v *Sx, depth int) *Sx {
 		return L(A("some"), tweak(r, t.E[0], v.List[1], depth-1))
 	case "seq", "slice", "bytes":
 		nilName, head := "nilseq", "seq"
-		gen := func() *Sx { return I(Pick(r, 0, 1, 97, 255)) }
+		gen := func() *Sx { return I(Pick(r, 0, 1, 65, 97, 255)) }
 		var et *Ty
 		if t.K == "bytes" {
 			nilName, head = "nilbytes", "bytes"
